@@ -356,6 +356,11 @@ nextFileMatch:
 	}
 
 	for _, md := range d.repoMetaData {
+		// 🚨 SECURITY: Repository names and URL templates are results too. Skip
+		// tombstoned repositories and repositories of other tenants.
+		if md.Tombstone || !tenant.HasAccess(ctx, md.TenantID) {
+			continue
+		}
 		r := md
 		addRepo(&res, &r)
 		for _, v := range r.SubRepoMap {
